@@ -15,7 +15,7 @@ RULE = (
     "of the whole data set (harness/oracles/post_ref.py)."
 )
 ASSUMPTIONS = [
-    "per-coefficient population variance >= 1e-3 and |mean|/std <= 50 by construction (columns are standardised "
+    "per-coefficient population variance >= 1e-3 and |mean|/std <= 1e3 by construction (columns are standardised "
     "before location/scale are applied); the implementation's replacement of variances with isclose(var, 0) by 1 is "
     "outside the statement.  A single accumulated vector (variance 0) is only used with norm_var=False",
     "accumulate/apply are never given an empty array (they raise ValueError, which the statement does not cover)",
@@ -203,7 +203,10 @@ def _pres():
 @st.composite
 def dataset_specs(draw, min_n=2, dtypes=("f64", "f64", "f32", "i16", "i32")):
     F = draw(st.sampled_from([1, 2, 2, 3, 3, 4, 5, 6]))
-    mult = st.one_of(st.integers(-50, 50).map(float), st.floats(-50, 50, allow_nan=False), st.sampled_from([-50.0, -3.0, 0.0, 50.0]))
+    # location in units of the spread: mostly moderate, sometimes an offset hundreds of times the spread
+    # (|mean|/std up to 1e3 keeps the float64 cancellation in E[x^2]-mean^2 far below the tolerance)
+    mult = st.one_of(st.integers(-50, 50).map(float), st.floats(-50, 50, allow_nan=False), st.sampled_from([-50.0, -3.0, 0.0, 50.0]),
+                     st.sampled_from([400.0, -700.0, 950.0, -950.0]))
     return {
         "N": draw(st.sampled_from([n for n in [1, 2, 2, 3, 4, 5, 6, 7, 8, 9, 10, 12] if n >= min_n])),
         "m": [draw(mult) for _ in range(F)],
